@@ -129,6 +129,14 @@ type world struct {
 	// the Manager's own renewal goroutine (a due certificate is renewed at once) is counted separately
 	finByCaller   map[string]int
 	finBackground int
+	// scheduling pressure for rounds with two key types (never part of a verdict): the first finalize
+	// to arrive waits for the second one, and the certificate numbered first is reported last, so that
+	// two issuances of DIFFERENT certKeys overlap and complete in the opposite order of their serials
+	pairStress   bool
+	finArrivals  int
+	secondFin    chan struct{}
+	secondIssued chan struct{}
+	issuedCount  int
 }
 
 func (w *world) g() string {
@@ -185,7 +193,7 @@ func (w *world) policy(ctx context.Context, host string) error {
 
 func newWorld(policyOK bool, now time.Time, norm string, outcome string) *world {
 	initKeys()
-	w := &world{finByCaller: map[string]int{}, gids: map[int64]string{}, cache: map[string][]byte{}, policyOK: policyOK, now: now, norm: norm}
+	w := &world{secondFin: make(chan struct{}), secondIssued: make(chan struct{}), finByCaller: map[string]int{}, gids: map[int64]string{}, cache: map[string][]byte{}, policyOK: policyOK, now: now, norm: norm}
 	w.ca = acmefake.NewCA(func() time.Time { return w.now })
 	w.ca.Outcome = func(string, string) string { return outcome }
 	w.ca.OnFinalize = func(name, kt string) {
@@ -198,11 +206,37 @@ func newWorld(policyOK bool, now time.Time, norm string, outcome string) *world 
 		w.finByCaller[kt]++
 		w.touches = append(w.touches, "finalize")
 		w.ev(map[string]any{"ev": "finalize", "g": w.g(), "kt": kt})
+		if w.pairStress {
+			w.finArrivals++
+			if w.finArrivals == 2 {
+				close(w.secondFin)
+			} else if w.finArrivals == 1 {
+				ch := w.secondFin
+				w.mu.Unlock()
+				select {
+				case <-ch:
+				case <-time.After(3 * time.Second):
+				}
+				w.mu.Lock()
+			}
+		}
 	}
 	w.ca.OnIssued = func(name, kt, o string, serial int) {
+		if w.pairStress && serial == 1 {
+			select { // let the certificate numbered second be reported first
+			case <-w.secondIssued:
+			case <-time.After(500 * time.Millisecond):
+			}
+		}
 		w.mu.Lock()
 		defer w.mu.Unlock()
 		w.ev(map[string]any{"ev": "issued", "g": w.g(), "o": o, "serial": serial})
+		if w.pairStress && w.g() != "" {
+			w.issuedCount++
+			if serial == 2 {
+				close(w.secondIssued)
+			}
+		}
 	}
 	cl := &acme.Client{Key: acctKey, HTTPClient: &http.Client{Transport: w.ca}, DirectoryURL: acmefake.Base + "/dir"}
 	w.m = &autocert.Manager{Prompt: autocert.AcceptTOS, Cache: w, HostPolicy: w.policy, Client: cl}
@@ -550,6 +584,7 @@ func TestConcurrent(t *testing.T) {
 		w.ca.Gate = make(chan struct{})
 		useRSA := r < rsaRounds
 		n := 2 + rng.Intn(15)
+		w.pairStress = useRSA && n >= 5 && outcome == "ok" && cacheE != "good" && policyOK && r%2 == 0
 		type call struct {
 			g, nc, kt string
 		}
